@@ -1,6 +1,8 @@
 import OnlVerif.Kernel.Replay
 import OnlVerif.Net.FifoReplay
 import OnlVerif.Net.GenSinkReplay
+import OnlVerif.Util.TimerReplay
+import OnlVerif.Util.RtReplay
 /-! Line-protocol driver: `driver <mode>` reads cases on stdin and prints the model's observations. -/
 
 def main (args : List String) : IO UInt32 := do
@@ -9,4 +11,6 @@ def main (args : List String) : IO UInt32 := do
   | ["kernel"] => kernelLoop stdin {}; return 0
   | ["fifo"] => fifoLoop stdin; return 0
   | ["gensink"] => gensinkLoop stdin; return 0
-  | _ => IO.eprintln "usage: driver <kernel>"; return 2
+  | ["timer"] => timerLoop stdin none; return 0
+  | ["rt"] => rtLoop stdin {}; return 0
+  | _ => IO.eprintln "usage: driver <kernel|fifo|gensink|timer|rt|…>"; return 2
